@@ -42,6 +42,11 @@ def start_models():
     _starts["pheno_nocov"] = nocov
     _starts["pheno_nocov_oral"] = set_first_order_absorption(nocov)
     _starts["pheno_blockif"] = _blockif_model(pheno)
+    _starts["pheno_oral_trans1"] = _trans1_model(pheno)
+    from pharmpy.modeling import add_pk_iiv, create_joint_distribution
+
+    # four etas in one joint block (two-compartment model with IIV on every PK parameter)
+    _starts["pheno_4block"] = create_joint_distribution(add_pk_iiv(add_peripheral_compartment(pheno)))
     _starts["pred_nl"] = _pred_model()
     _starts["pred_dates"] = _pred_model(dates=True)
     lin = load_example_model("pheno_linear")
@@ -85,6 +90,19 @@ def _blockif_model(pheno):
     assert "ETA_FR" in code and "POP_FRAC" in code and "IIV_FR" in code and "FRAC = 0" in code
     m = read_model_from_string(code)
     return m.replace(dataset=pheno.dataset.copy(), datainfo=pheno.datainfo, name="pheno_blockif")
+
+
+def _trans1_model(pheno):
+    """first-order absorption coded with rate constants (ADVAN2 TRANS1): K, KA are basic PK parameters defined in $PK"""
+    from pharmpy.modeling import read_model_from_string
+
+    code = pheno.code
+    code = code.replace("$SUBROUTINE ADVAN1 TRANS2", "$SUBROUTINE ADVAN2 TRANS1")
+    code = code.replace("V = VC\nS1 = VC\n", "V = VC\nK = CL/V\nKA = THETA(4)\nS2 = VC\n")
+    code = code.replace("$THETA  (-.99,.1) ; COVAPGR\n", "$THETA  (-.99,.1) ; COVAPGR\n$THETA  (0,1.5) ; POP_KA\n")
+    assert "ADVAN2 TRANS1" in code and "K = CL/V" in code and "POP_KA" in code
+    m = read_model_from_string(code)
+    return m.replace(dataset=pheno.dataset.copy(), datainfo=pheno.datainfo, name="pheno_oral_trans1")
 
 
 def _pred_model(dates=False):
